@@ -59,6 +59,9 @@ def mkkey(r, n, cls):
         return (SHARED_PREFIX + r.bytes(n - 16)) if n > 16 else r.bytes(n)
     if cls == 'z':
         return bytes(n)
+    if cls == 'w':          # some aligned 32-bit words are zero (a packet counter padded with zeroes), the others random
+        pat = r.randint(1, (1 << (n // 4)) - 2)
+        return b''.join((bytes(4) if (pat >> i) & 1 else r.bytes(4)) for i in range(n // 4))
     if cls == 'f':
         return b'\xff' * n
     if cls == 'b':
@@ -178,6 +181,10 @@ def roundtrip_plan(chk, exe, mode, shapes, builds_extra=()):
             if o is None:
                 continue
             g.append(dec_line(f"d{i}", mode, shapes[i], datas[i], bytes(o['out'])))
+            if i % 9 in (4, 7) and not shapes[i].get('alias') and shapes[i]['mlen'] < 5000:
+                # separate buffers 4 GiB / 2 GiB apart in the address space (a 32-bit pointer difference would call them overlapping)
+                g.append(dec_line(f"d{i}far", mode, shapes[i], datas[i], bytes(o['out'])) + (" far=4g" if i % 9 == 4 else " far=2g"))
+                g.append(enc_line(f"e{i}far", mode, shapes[i], datas[i], keep=0) + (" far=2g" if i % 9 == 4 else " far=4g"))
             if i % 9 == 0 and not shapes[i].get('alias'):
                 # separate buffers that touch: plaintext right behind the packet, packet right behind the plaintext
                 g.append(dec_line(f"d{i}adj1", mode, shapes[i], datas[i], bytes(o['out'])) + " adj=1")
@@ -266,7 +273,10 @@ def check_C02(chk):
     # (1) the shape space, with emphasis on many keys and nonces
     for i, sh in enumerate(shapes):
         sh = dict(sh, kcls=r.choice(['r', 'r', 'r', 'b', 'f']))
-        lines.append(enc_line(f"s{i}", 'aead', sh, shape_data(r, sh), keep=0))
+        far = ''
+        if i % 13 in (5, 9) and not sh.get('alias') and sh['mlen'] < 5000:
+            far = ' far=2g' if i % 13 == 5 else ' far=4g'        # plaintext and ciphertext buffers 2 GiB / 4 GiB apart
+        lines.append(enc_line(f"s{i}", 'aead', sh, shape_data(r, sh), keep=0) + far)
     # (2) key schedule: every single-bit key and nonce for each variant (exercises each key word position of the
     #     128/192/256 schedules across the 5-, 8-, 9-, 10-round calls)
     for v in (128, 192, 256):
@@ -573,7 +583,7 @@ def check_C04(chk):
     sh2.sort(key=lambda s: json.dumps(s, sort_keys=True))
     groups2 = []
     for mode in ('aead', 'siv'):
-        datas = [shape_data(r, dict(s, kcls='r')) for s in sh2]
+        datas = [shape_data(r, s) for s in sh2]          # key classes of the plan: random, all-zero, all-ones, single bit, zero words
         ev1, _ = run_driver(exe, [enc_line(f"q{i}", mode, dict(v=s['v']), d, keep=0) for i, (s, d) in enumerate(zip(sh2, datas))])
         outs = {e['id']: bytes(e['out']) for e in ev1 if e.get('e') == 'Enc'}
         g = []
